@@ -160,3 +160,306 @@ def check_z3_translator(repo: Repo, rep: Report) -> None:
     rep.floor("OPC-3", 15)
     rep.assume("z3's own operators and z3.And/Or/Not/Xor/If/Implies/Distinct have their documented meaning; "
                "z3 coerces Python bool/int literals inside its operator overloads")
+
+
+# ------------------------------------------------------------------------------------------
+# OPC-6 (scalar classes) : dunder -> Op -> reference meaning
+# ------------------------------------------------------------------------------------------
+
+EXPR_FILE = "cspuz/expr.py"
+CONS_FILE = "cspuz/constraints.py"
+
+# meaning the Python data model gives `self <op> other` / `other <op> self`
+BOOL_DUNDERS = {
+    "__invert__": (0, lambda s: not s),
+    "__and__": (1, lambda s, o: s and o),
+    "__rand__": (1, lambda s, o: o and s),
+    "__or__": (1, lambda s, o: s or o),
+    "__ror__": (1, lambda s, o: o or s),
+    "__eq__": (1, lambda s, o: s == o),
+    "__ne__": (1, lambda s, o: s != o),
+    "__xor__": (1, lambda s, o: s != o),
+    "__rxor__": (1, lambda s, o: o != s),
+}
+INT_DUNDERS = {
+    "__neg__": (0, "i", lambda s: -s),
+    "__add__": (1, "i", lambda s, o: s + o),
+    "__radd__": (1, "i", lambda s, o: o + s),
+    "__sub__": (1, "i", lambda s, o: s - o),
+    "__rsub__": (1, "i", lambda s, o: Lin.of(o) - s if isinstance(s, Lin) or isinstance(o, Lin) else o - s),
+    "__eq__": (1, "b", lambda s, o: s == o),
+    "__ne__": (1, "b", lambda s, o: s != o),
+    "__ge__": (1, "b", lambda s, o: s >= o),
+    "__gt__": (1, "b", lambda s, o: s > o),
+    "__le__": (1, "b", lambda s, o: s <= o),
+    "__lt__": (1, "b", lambda s, o: s < o),
+}
+
+
+def _int_vals(order: bool, names: List[str]):
+    import itertools
+
+    if order:
+        for t in itertools.product(EM.INT_GRID, repeat=len(names)):
+            yield dict(zip(names, t))
+    else:
+        yield {n: Lin.sym(n) for n in names}
+
+
+def _bool_vals(names: List[str]):
+    for t in fde.bool_assignments(len(names)):
+        yield dict(zip(names, t))
+
+
+def _run(world: EM.ExprWorld, thunk) -> Tuple[str, Any]:
+    try:
+        return "value", thunk()
+    except Raised as ex:
+        return "raised", ex.what
+    except EM.IllFormed as ex:
+        return "illformed", str(ex)
+
+
+def check_scalar_dunders(repo: Repo, rep: Report, world: Optional[EM.ExprWorld] = None) -> None:
+    rep.rule("OPC-6", "operator dunders / then / cond build the Op and operand order whose reference denotation is the Python meaning of the call")
+    world = world or EM.ExprWorld(repo)
+    mod = repo.mod(EXPR_FILE)
+    rep.saw(EXPR_FILE)
+
+    def judge(qual: str, label: str, build, vals, meaning) -> None:
+        rep.saw(EXPR_FILE, qual)
+        if not mod.has_func(qual):
+            rep.finding("OPC-6", EXPR_FILE, qual.split(".")[0], f"missing {qual}",
+                        f"{qual} is not defined: the expression form it implements is no longer available")
+            return
+        fn = mod.func(qual)
+        try:
+            kind, tree = _run(world, build)
+            if kind != "value" or tree is fde.NOTIMPL or tree is None:
+                rep.finding("OPC-6", EXPR_FILE, qual, f"{qual} {label}",
+                            f"well-typed call is rejected ({kind}: {tree!r})", fn.lineno)
+                return
+            for val in vals:
+                try:
+                    got = world.denote(tree, val)
+                except EM.IllFormed as ex:
+                    rep.finding("OPC-6", EXPR_FILE, qual, f"{qual} {label}", f"builds an ill-formed tree: {ex}", fn.lineno)
+                    return
+                want = meaning(val)
+                if not same(got, want):
+                    rep.finding("OPC-6", EXPR_FILE, qual, f"{qual} {label}",
+                                f"under {val!r} the built tree denotes {got!r} but the Python meaning of the call is {want!r}",
+                                fn.lineno)
+                    return
+            rep.ok("OPC-6", f"{qual} {label}: tree denotation equals the call's meaning")
+        except Undecided as ex:
+            rep.undecide("OPC-6", f"{qual} {label}: {ex}")
+
+    # BoolExpr
+    for name, (ar, f) in BOOL_DUNDERS.items():
+        q = f"BoolExpr.{name}"
+        s = world.leaf("b", "s")
+        if ar == 0:
+            judge(q, "(leaf)", lambda q=q, s=s: world.call(mod, q, self_obj=s), list(_bool_vals(["s"])),
+                  lambda v, f=f: f(v["s"]))
+        else:
+            o = world.leaf("b", "o")
+            judge(q, "(leaf, leaf)", lambda q=q, s=s, o=o: world.call(mod, q, o, self_obj=s),
+                  list(_bool_vals(["s", "o"])), lambda v, f=f: f(v["s"], v["o"]))
+            for lit in (True, False):
+                judge(q, f"(leaf, {lit})", lambda q=q, s=s, lit=lit: world.call(mod, q, lit, self_obj=s),
+                      list(_bool_vals(["s"])), lambda v, f=f, lit=lit: f(v["s"], lit))
+    # IntExpr
+    for name, (ar, res, f) in INT_DUNDERS.items():
+        q = f"IntExpr.{name}"
+        s = world.leaf("i", "s")
+        order = res == "b"
+        if ar == 0:
+            judge(q, "(leaf)", lambda q=q, s=s: world.call(mod, q, self_obj=s), list(_int_vals(order, ["s"])),
+                  lambda v, f=f: f(v["s"]))
+        else:
+            o = world.leaf("i", "o")
+            judge(q, "(leaf, leaf)", lambda q=q, s=s, o=o: world.call(mod, q, o, self_obj=s),
+                  list(_int_vals(order, ["s", "o"])), lambda v, f=f: f(v["s"], v["o"]))
+            judge(q, "(leaf, 1)", lambda q=q, s=s: world.call(mod, q, 1, self_obj=s),
+                  list(_int_vals(order, ["s"])), lambda v, f=f: f(v["s"], 1))
+    # then / cond (methods and module functions)
+    s, o = world.leaf("b", "s"), world.leaf("b", "o")
+    t, e = world.leaf("i", "t"), world.leaf("i", "e")
+    cons = repo.mod(CONS_FILE)
+
+    def judge_in(modx, file, qual, label, build, vals, meaning):
+        nonlocal mod
+        saved = mod
+        mod = modx
+        try:
+            judge_file[0] = file
+            judge(qual, label, build, vals, meaning)
+        finally:
+            mod = saved
+
+    judge_file = [EXPR_FILE]
+    imp = lambda v: (not v["s"]) or v["o"]  # noqa: E731
+    judge("BoolExpr.then", "(leaf, leaf)", lambda: world.call(mod, "BoolExpr.then", o, self_obj=s),
+          list(_bool_vals(["s", "o"])), imp)
+    for lit in (True, False):
+        judge("BoolExpr.then", f"(leaf, {lit})", lambda lit=lit: world.call(mod, "BoolExpr.then", lit, self_obj=s),
+              list(_bool_vals(["s"])), lambda v, lit=lit: (not v["s"]) or lit)
+    cvals = [dict(s=b, t=Lin.sym("t"), e=Lin.sym("e")) for b in (False, True)]
+    ite = lambda v: v["t"] if v["s"] else v["e"]  # noqa: E731
+    judge("BoolExpr.cond", "(leaf, leaf, leaf)", lambda: world.call(mod, "BoolExpr.cond", t, e, self_obj=s), cvals, ite)
+    judge("BoolExpr.cond", "(leaf, 1, 0)", lambda: world.call(mod, "BoolExpr.cond", 1, 0, self_obj=s),
+          [dict(s=b) for b in (False, True)], lambda v: 1 if v["s"] else 0)
+    rep.saw(CONS_FILE)
+    for qual, build, vals, meaning, label in (
+        ("then", lambda: world.call(cons, "then", s, o), list(_bool_vals(["s", "o"])), imp, "(leaf, leaf)"),
+        ("then", lambda: world.call(cons, "then", True, o), list(_bool_vals(["o"])), lambda v: v["o"], "(True, leaf)"),
+        ("cond", lambda: world.call(cons, "cond", s, t, e), cvals, ite, "(leaf, leaf, leaf)"),
+        ("cond", lambda: world.call(cons, "cond", s, 2, e), [dict(s=b, e=Lin.sym("e")) for b in (False, True)],
+         lambda v: 2 if v["s"] else v["e"], "(leaf, 2, leaf)"),
+    ):
+        if not cons.has_func(qual):
+            raise AnalysisError(f"anchor vanished: {CONS_FILE}::{qual}")
+        fnode = cons.func(qual)
+        try:
+            kind, tree = _run(world, build)
+            if kind != "value" or tree is fde.NOTIMPL or tree is None:
+                rep.finding("OPC-6", CONS_FILE, qual, f"{qual} {label}", f"well-typed call is rejected ({kind}: {tree!r})", fnode.lineno)
+                continue
+            bad = None
+            for val in vals:
+                got = world.denote(tree, val)
+                want = meaning(val)
+                if not same(got, want):
+                    bad = (val, got, want)
+                    break
+            if bad:
+                rep.finding("OPC-6", CONS_FILE, qual, f"{qual} {label}",
+                            f"under {bad[0]!r} the built tree denotes {bad[1]!r}; the call means {bad[2]!r}", fnode.lineno)
+            else:
+                rep.ok("OPC-6", f"constraints.{qual} {label}: tree denotation equals the call's meaning")
+        except EM.IllFormed as ex:
+            rep.finding("OPC-6", CONS_FILE, qual, f"{qual} {label}", f"builds an ill-formed tree: {ex}", fnode.lineno)
+        except Undecided as ex:
+            rep.undecide("OPC-6", f"constraints.{qual} {label}: {ex}")
+
+
+# ------------------------------------------------------------------------------------------
+# OPC-7 : aggregate helpers
+# ------------------------------------------------------------------------------------------
+
+
+def check_helpers(repo: Repo, rep: Report, world: Optional[EM.ExprWorld] = None) -> None:
+    import itertools
+
+    rep.rule("OPC-7", "count_true / fold_or / fold_and / alldifferent denote count / disjunction / conjunction / pairwise distinctness for every mix of literals and expressions, incl. empty and constant-only forms")
+    world = world or EM.ExprWorld(repo)
+    cons = repo.mod(CONS_FILE)
+    rep.saw(CONS_FILE)
+    b0, b1 = world.leaf("b", "b0"), world.leaf("b", "b1")
+    items = [True, False, b0, b1]
+    meanings = {
+        "count_true": lambda xs: sum(1 for x in xs if x),
+        "fold_or": lambda xs: any(xs),
+        "fold_and": lambda xs: all(xs),
+    }
+    for name, meaning in meanings.items():
+        fn = cons.func(name)
+        rep.saw(CONS_FILE, name)
+        bad = None
+        ncases = 0
+        try:
+            for n in range(0, 4):
+                for combo in itertools.product(items, repeat=n):
+                    shapes = [list(combo)]
+                    if n >= 2:
+                        shapes.append([[combo[0]], list(combo[1:])])  # nested iterables flatten
+                    for args in shapes:
+                        ncases += 1
+                        kind, tree = _run(world, lambda: world.call(cons, name, *args))
+                        if kind != "value":
+                            bad = (args, f"{kind}: {tree}")
+                            break
+                        for val in _bool_vals(["b0", "b1"]):
+                            flat = world._flatten(*args)
+                            want = meaning([val[x.attrs["leaf"]] if isinstance(x, Obj) else x for x in flat])
+                            got = world.denote(tree, val)
+                            if not same(got, want):
+                                bad = (args, f"under {val} denotes {got!r}, expected {want!r}")
+                                break
+                        if bad:
+                            break
+                    if bad:
+                        break
+                if bad:
+                    break
+        except EM.IllFormed as ex:
+            bad = ("", f"builds an ill-formed tree: {ex}")
+        except Undecided as ex:
+            rep.undecide("OPC-7", f"{name}: {ex}")
+            continue
+        if bad:
+            rep.finding("OPC-7", CONS_FILE, name, f"{name}",
+                        f"{name}({', '.join(map(_show, bad[0])) if bad[0] != '' else ''}) {bad[1]}", fn.lineno)
+        else:
+            rep.ok("OPC-7", f"{name}: {ncases} argument shapes x 4 valuations agree with the mathematical meaning")
+    # non-boolean items must be rejected
+    for name in meanings:
+        kind, tree = _run(world, lambda: world.call(cons, name, [world.leaf("i", "n")]))
+        if kind == "raised" and "TypeError" in str(tree):
+            rep.ok("OPC-7", f"{name} rejects an integer-valued item with TypeError", nontrivial=False)
+        else:
+            rep.finding("OPC-7", CONS_FILE, name, f"{name} type check", f"an integer-valued item is accepted ({kind})", cons.func(name).lineno)
+    # alldifferent
+    fn = cons.func("alldifferent")
+    rep.saw(CONS_FILE, "alldifferent")
+    i0, i1 = world.leaf("i", "i0"), world.leaf("i", "i1")
+    bad = None
+    ncases = 0
+    try:
+        for n in range(0, 4):
+            for combo in itertools.product([1, 2, i0, i1], repeat=n):
+                ncases += 1
+                kind, tree = _run(world, lambda: world.call(cons, "alldifferent", list(combo)))
+                if kind != "value":
+                    bad = (combo, f"{kind}: {tree}")
+                    break
+                for val in _int_vals(True, ["i0", "i1"]):
+                    xs = [val[x.attrs["leaf"]] if isinstance(x, Obj) else x for x in combo]
+                    if not same(world.denote(tree, val), EM._alldiff(xs)):
+                        bad = (combo, f"under {val} is not pairwise distinctness")
+                        break
+                if bad:
+                    break
+            if bad:
+                break
+    except (EM.IllFormed, Undecided) as ex:
+        bad = ((), str(ex))
+    if bad:
+        rep.finding("OPC-7", CONS_FILE, "alldifferent", "alldifferent", f"alldifferent{tuple(map(_show, bad[0]))} {bad[1]}", fn.lineno)
+    else:
+        rep.ok("OPC-7", f"alldifferent: {ncases} argument shapes agree with pairwise distinctness")
+    # the trivial single-expression methods
+    mod = repo.mod(EXPR_FILE)
+    s = world.leaf("b", "s")
+    for q, meaning in (("BoolExpr.fold_or", lambda v: v["s"]), ("BoolExpr.fold_and", lambda v: v["s"]),
+                       ("BoolExpr.count_true", lambda v: 1 if v["s"] else 0)):
+        if not mod.has_func(q):
+            continue
+        try:
+            kind, tree = _run(world, lambda: world.call(mod, q, self_obj=s))
+            okay = kind == "value" and all(same(world.denote(tree, v), meaning(v)) for v in _bool_vals(["s"]))
+        except (Undecided, EM.IllFormed):
+            okay = False
+        if okay:
+            rep.ok("OPC-7", f"{q} denotes its single-item meaning")
+        else:
+            rep.finding("OPC-7", EXPR_FILE, q, q, "single-expression aggregate does not denote the expression's own value", mod.func(q).lineno)
+
+
+def _show(x: Any) -> str:
+    if isinstance(x, Obj):
+        return str(x.attrs.get("leaf", x))
+    if isinstance(x, (list, tuple)):
+        return "[" + ", ".join(map(_show, x)) + "]"
+    return repr(x)
